@@ -59,7 +59,7 @@ def gen(rng, tier):
 
 class C07(Prop):
     id = "C07"
-    quick_runs = 2000
+    quick_runs = 1500
     thorough_runs = 40000
     assumptions = ["no kill is injected: every worker death in these runs is loky's own idle time-out exit",
                    "timer expiry is adversarial within the starvation bound J (DESIGN 5.3)"]
